@@ -1,5 +1,5 @@
 #!/usr/bin/env python3
-"""Write seeded/<id>/meta.json for every seeded change from its notes.txt, verify.log and seeded/RESULTS.json."""
+"""Write seeded/<id>/meta.json (from notes.txt, verify.log, seeded/RESULTS.json) and neutral/<id>/meta.json (from notes.txt, neutral/RESULTS.json)."""
 import json, os, re, sys
 VERIF = os.path.dirname(os.path.dirname(os.path.abspath(__file__)))
 sd = os.path.join(VERIF, "seeded")
@@ -28,7 +28,7 @@ for sid in sorted(os.listdir(sd)):
     meta = {
         "id": sid,
         "property": sid.split("-")[0],
-        "round": 2 if "-r2" in sid else 1,
+        "round": int(re.search(r"-r(\d+)", sid).group(1)) if re.search(r"-r(\d+)", sid) else 1,
         "origin": "independent sub-agent given only the property text and its own scratch worktree of /repo",
         "files_changed": files,
         "needs_to_manifest": need,
@@ -43,3 +43,28 @@ for sid in sorted(os.listdir(sd)):
         meta["missed_because"] = old.get("missed_because", "")
     json.dump(meta, open(mp, "w"), indent=1)
 print("meta written for", len([x for x in os.listdir(sd) if os.path.isdir(os.path.join(sd, x))]))
+
+# neutral/<id>/meta.json
+nd = os.path.join(VERIF, "neutral")
+nres = json.load(open(os.path.join(nd, "RESULTS.json")))
+n = 0
+for nid in sorted(os.listdir(nd)):
+    d = os.path.join(nd, nid)
+    if not os.path.isdir(d) or not os.path.exists(os.path.join(d, "patch.diff")):
+        continue
+    notes = open(os.path.join(d, "notes.txt")).read() if os.path.exists(os.path.join(d, "notes.txt")) else ""
+    files = sorted(set(re.findall(r"^\+\+\+ b/(\S+)", open(os.path.join(d, "patch.diff")).read(), re.M)))
+    rr = nres.get(nid, {})
+    meta = {
+        "id": nid,
+        "kind": "behaviour-preserving refactoring written by an independent sub-agent (saw only the repository); the agent built the "
+                "feature configurations and ran the 531-test suite with it",
+        "files_changed": files,
+        "summary": " ".join(notes.split())[:260],
+        "checks_run": "tools/run_neutral.py / tools/run_patches.py neutral (every claimed quick check against the patched tree)",
+        "false_alarm_now": bool(rr.get("false_alarm")),
+        "fired_now": rr.get("fired", {}),
+    }
+    json.dump(meta, open(os.path.join(d, "meta.json"), "w"), indent=1)
+    n += 1
+print("neutral meta written for", n)
